@@ -376,6 +376,21 @@ Definition coll_add {A} (maxb : N) (c : coll A) (x : A) : coll A :=
 Definition coll_flush {A} (c : coll A) : coll A :=
   match cbuf c with [] => c | b => mkC [] (cout c ++ [b]) end.
 
+(* a collector history: Some x = add(x), None = flush() (or a check_timeout that fires) *)
+Fixpoint coll_run {A} (maxb : N) (c : coll A) (ops : list (option A)) : coll A :=
+  match ops with
+  | [] => c
+  | Some x :: r => coll_run maxb (coll_add maxb c x) r
+  | None :: r => coll_run maxb (coll_flush c) r
+  end.
+
+(* priority order of a queue: every element is at least as urgent as everything behind it *)
+Fixpoint desc (l : list task) : Prop :=
+  match l with
+  | [] => True
+  | x :: r => (forall y, In y r -> tprio y <= tprio x) /\ desc r
+  end.
+
 (* ------------------------------------------------------------------ *)
 (* Part 3: evaluation of harness cases                                 *)
 (* ------------------------------------------------------------------ *)
